@@ -83,7 +83,8 @@ def __plugin_order(plugin: 'Plugin') -> int:
             raise TypeError("order of plugin is not a number: %r" % (order,))
         # a plain number: a subclass brings its own comparison, and nan compares false with everything, which leaves
         # the other plugins unsorted
-        order = float(order)
+        # (an int stays an int: as a float two large orders can become the same, a huge one cannot be had at all)
+        order = int(order) if isinstance(order, int) else float(order)
         if order != order:
             raise ValueError("order of plugin is not a number: nan")
         return order
